@@ -16,7 +16,7 @@ Inductive oval :=
 Inductive cprim :=
 | PSetInt (v : nat) (e : iexpr)
 | PSetStr (v : nat) (bs : list N)
-| PDelete (v : nat)
+| PDelete (v : nat) (freed : bool)   (* freed: delete may release an on-demand heap buffer (-fdelete-string-free-memory): no content survives it, the cells become indeterminate (among the start actions the buffer is kept, elsewhere it is freed and a later append gets a fresh one) *)
 | PAppend (v : nat)
 | PAppendExpr (v : nat) (e : iexpr)
 | PHook (h : nat).
@@ -84,10 +84,11 @@ Definition exec_cprim (cfg : ccfg) (p : cprim) (inval : N) (x : cdata) : option 
             Some {| vals := set_nth vs v (VBuf (write_cells cells 0 (if null then bs ++ [0%N] else bs)) (length bs)); hooks := hooks x |}
           else None
       | _, _ => None end
-  | PDelete v =>
+  | PDelete v freed =>
       match nth_error (c_decls cfg) v, nth_error vs v with
       | Some (DBuf size null _), Some (VBuf cells _) =>
-          Some {| vals := set_nth vs v (VBuf (if null then set_nth cells 0 (Some 0%N) else cells) 0); hooks := hooks x |}
+          Some {| vals := set_nth vs v (VBuf (if freed then map (fun _ => None) cells
+                                               else if null then set_nth cells 0 (Some 0%N) else cells) 0); hooks := hooks x |}
       | _, _ => None end
   | PAppend v =>
       match nth_error (c_decls cfg) v, nth_error vs v with
@@ -202,7 +203,7 @@ Theorem store_inv_prim cfg p inval x x' :
   vals_ok (c_decls cfg) (vals x) = true -> exec_cprim cfg p inval x = Some x' ->
   vals_ok (c_decls cfg) (vals x') = true.
 Proof.
-  intros Hok H. destruct p as [v e|v bs|v|v|v e|h]; cbn [exec_cprim] in H.
+  intros Hok H. destruct p as [v e|v bs|v freed|v|v e|h]; cbn [exec_cprim] in H.
   - destruct (nth_error (c_decls cfg) v) as [[t|? ? ?]|] eqn:Ed; try discriminate.
     destruct (ceval _ e) as [cv|]; try discriminate. inversion H; subst; cbn [vals].
     eapply vals_ok_set; eauto. cbn [val_ok]. apply wrap_in_range.
@@ -216,6 +217,7 @@ Proof.
     destruct (nth_error (vals x) v) as [[?|cells n]|] eqn:Ev; try discriminate.
     inversion H; subst; cbn [vals]. eapply vals_ok_set; eauto. cbn [val_ok].
     pose proof (vals_ok_nth _ _ _ _ _ Hok Ed Ev) as Hv. cbn [val_ok] in Hv. apply andb_prop in Hv as [Hl _].
+    destruct freed; [rewrite map_length, Hl; reflexivity|].
     destruct null; rewrite ?set_nth_length, Hl; reflexivity.
   - destruct (nth_error (c_decls cfg) v) as [[?|size null u8]|] eqn:Ed; try discriminate.
     destruct (nth_error (vals x) v) as [[?|cells n]|] eqn:Ev; try discriminate.
